@@ -41,10 +41,13 @@ structure BSt where
   m : Model.Funcs.BSt
   /-- the callback's `j`-th run returns `base + j` -/
   base : Int := 100
+  /-- default lifetime of the cache's entries in ms (`-1`: none) and the virtual instant -/
+  exp : Int := -1
+  now : Int := 0
 
 def beforeKind : Kind where
   σ := BSt
-  init := fun ps => match ps with | [.int n, _, .int b] => some { n := n, m := { n := n }, base := b } | _ => none
+  init := fun ps => match ps with | [.int n, .int e, .int b] => some { n := n, m := { n := n }, base := b, exp := e } | _ => none
   step := fun st l =>
     match failRes l with
     | some c => { st := st, spec := some c }
@@ -54,6 +57,10 @@ def beforeKind : Kind where
       -- the cache's cleanup: removes expired entries only (C08: `deleteExpired` keeps every live entry), and the
       -- entry of `Before` does not expire (NoExpiration, or a zero default) -- no effect
       { st := st, tags := ["before:purge"], spec := if l.res == [.atom "ok"] then none else some "before:purge" }
+    | "sleep", _ =>
+      match l.args with
+      | [.int d] => { st := { st with now := st.now + d }, tags := ["before:sleep"] }
+      | _ => { st := st, bad := some "before sleep" }
     | "call", [.int ran, .int ret] =>
       let k := st.k + 1
       let should := beforeRuns st.n k
@@ -62,11 +69,17 @@ def beforeKind : Kind where
       let wantRet : Int := if runs = 0 then 0 else st.base + runs
       let okRan := ran = (if should then 1 else 0)
       -- model: cache without expiry (the harness creates it with expiration -1), callback result 100 + run number
-      let (m', mran, mret) := Model.Funcs.beforeCall (-1) 0 (fun j => st.base + (j : Int)) st.m
+      let (m', mran, mret) := Model.Funcs.beforeCall st.exp st.now (fun j => st.base + (j : Int)) st.m
+      -- KNOWN FINDING (pinned by Example_before, which prints the stored item): the last run's result lives in a cache
+      -- entry with the cache's DEFAULT lifetime; once that entry has expired a later call returns the zero value.  The
+      -- deviation is attributed to the finding only when the model of the code predicts exactly this answer, the entry
+      -- of the last run has expired, and nothing else is wrong.
+      let lost := okRan && ret ≠ wantRet && ret = 0 && mret = 0 && st.exp > 0 && !should && runs > 0
       { st := { st with k := k, runs := runs, m := m' }, tags := ["before"], nontrivial := st.n ≥ 1 && k > st.n.toNat
         model := some [.int (if mran then 1 else 0), .int mret]
+        known := if lost then some "before.result-lost-after-entry-expires" else none
         spec := if !okRan then some "before:runs-first-n-only"
-                else if ret ≠ wantRet then some "before:returns-last-run" else none }
+                else if ret ≠ wantRet && !lost then some "before:returns-last-run" else none }
     | _, _ => { st := st, bad := some "before line" }
 
 structure OSt where
